@@ -47,7 +47,7 @@ def fBF (x : BF) : String := toString x.bits.toNat
 
 /-  one request = one history on one object graph (floats as IEEE bit patterns):
 
-      hist <variant> <cfg> <man> <bkg> <up> <lo> <dx> <grid> <d0> <s0> <ops>
+      hist <variant> <cfg> <man> <bkg> <up> <lo> <dx> <grid> <sel> <d0> <s0> <ops>
 
     variant  4 chars 0/1: bumpAlways exactHit resetNsgrad clearNsgOnEval   (probed on the real code by the harness)
     cfg      6 chars 0/1: srcFields preFields staticFields cachePd parabola cacheBkg
@@ -55,6 +55,7 @@ def fBF (x : BF) : String := toString x.bits.toNat
     bkg      d:s:v1,v2,…;…         background PDF values
     up, lo   g:g';…                ParameterGrid neighbours          dx  grid spacing
     grid     g1,g2,…               the grid points that have a PDF (others: KeyError)
+    sel      d:s:k:i1,i2,…;… | -    event selection: positions of the selected events paired with source k (no entry: all)
     d0, s0   data set / source of the first initialize_trial
     ops      ;-separated   I<d> | S<s> | E<ns>|<x1,x2,…>|<key1,key2,…> | G
     answer   ;-separated   U | O:<ratio blocks a,b/c,d>:<grad blocks>:<interpHit>:<pdMiss>:<bkgMiss>
@@ -95,8 +96,14 @@ def nbTab (s : String) : List (BF × BF) :=
 /-- a grid point that is in no table: outside the grid (the model then answers XERR before any lookup) -/
 def offGrid : BF := BF.of (0.0 / 0.0)
 
-def mkWorld (man bkg up lo dx grid : String) : World Nat Nat BF :=
+def selTab (s : String) : List ((Nat × Nat × Nat) × List Nat) :=
+  (entries s).filterMap fun
+    | [d, sr, k, is] => some ((pN d, pN sr, pN k), pList pN is)
+    | _ => none
+
+def mkWorld (man bkg up lo dx grid sel : String) : World Nat Nat BF :=
   let mt := manTab man
+  let selt := selTab sel
   let bt := bkgTab bkg
   let ut := nbTab up
   let lt := nbTab lo
@@ -106,7 +113,9 @@ def mkWorld (man bkg up lo dx grid : String) : World Nat Nat BF :=
     up := fun g => (ut.lookup g).getD offGrid,
     lo := fun g => (lt.lookup g).getD offGrid,
     dx := pBF dx,
-    inGrid := fun g => gs.contains g }
+    inGrid := fun g => gs.contains g,
+    -- no entry: no event selection method, every source is paired with every selected event
+    sel := fun d s k => (selt.lookup (d, s, k)).getD (List.range ((bt.lookup (d, s)).getD []).length) }
 
 def pOp (s : String) : Option (Op Nat Nat BF) :=
   if s.startsWith "I" then some (.initTrial (pN (s.drop 1).toString))
@@ -163,7 +172,7 @@ def fieldTrace (f : Nat → Nat → UInt64 → List Float) (reset : Bool) :
       | none => "U") :: fieldTrace f reset r.1 ops
 
 /-  third request kind: the upper layers (Model/CacheTop.lean), operations = the real calls
-      top <variant> <cfg> <man> <bkg> <up> <lo> <dx> <grid> <nev d:N;…> <ak s:x1,x2,…:a1,a2,…;…> <opa> <casc0> <d0> <s0> <ops>
+      top <variant> <cfg> <man> <bkg> <up> <lo> <dx> <grid> <sel> <nev d:N;…> <ak s:x1,x2,…:a1,a2,…;…> <opa> <casc0> <d0> <s0> <ops>
     casc0   1: the object graph after its first initialize_for_new_trial (`tfresh`); 0: as constructed, before any cascade
     ops     ;-separated  T<d> (tdm.initialize_trial) | L (initialize_for_new_trial cascade) | C<s> (change_shg_mgr)
                          | E<ns>|<xs>|<keys> | G<ns> (calculate_ns_grad2)
@@ -198,22 +207,22 @@ def fTRes : TRes BF → String
 
 def answer (line : String) : String :=
   match tokens line with
-  | ["hist", v, c, man, bkg, up, lo, dx, grid, d0, s0, ops] =>
+  | ["hist", v, c, man, bkg, up, lo, dx, grid, sel, d0, s0, ops] =>
     let v := pVariant v
     let cfg := pCfg c
-    let W := mkWorld man bkg up lo dx grid
+    let W := mkWorld man bkg up lo dx grid sel
     match (if ops == "-" then some [] else (ops.splitOn ";").mapM pOp) with
     | some ops =>
       let r := run W v (hitOf v cfg) cfg (fresh (pN d0) (pN s0)) ops
       String.intercalate ";" (List.zipWith (· ++ ·) (r.2.map fRes) ((pureTrace W cfg.parabola (pN d0) (pN s0) ops).map fPure))
     | none => "bad-ops"
-  | ["top", v, c, man, bkg, up, lo, dx, grid, nev, ak, opa, casc0, d0, s0, ops] =>
+  | ["top", v, c, man, bkg, up, lo, dx, grid, sel, nev, ak, opa, casc0, d0, s0, ops] =>
     let v := pVariant v
     let cfg := pCfg c
     let nt := nevTab nev
     let at_ := akTab ak
     let T : Top Nat Nat BF :=
-      { W := mkWorld man bkg up lo dx grid, nEvents := fun d => (nt.lookup d).getD 0,
+      { W := mkWorld man bkg up lo dx grid sel, nEvents := fun d => (nt.lookup d).getD 0,
         ak := fun s q => (at_.lookup (s, q.x)).getD [], opa := pBF opa }
     match (if ops == "-" then some [] else (ops.splitOn ";").mapM pTOp) with
     | some ops =>
